@@ -1,13 +1,13 @@
 import Mathlib.Data.List.Basic
 namespace GeoVerif
 
-def isWs (c : Char) : Bool := c == ' ' || c == '\t' || c == '\n' || c == '\r'
+def isBlankCh (c : Char) : Bool := c == ' ' || c == '\t' || c == '\n' || c == '\r'
 
 /-- Python `str.split()` (no argument) on a character list -/
 def splitWsAux : List Char → List Char → List (List Char)
   | [], acc => if acc.isEmpty then [] else [acc.reverse]
   | c :: cs, acc =>
-    if isWs c then
+    if isBlankCh c then
       (if acc.isEmpty then splitWsAux cs [] else acc.reverse :: splitWsAux cs [])
     else splitWsAux cs (c :: acc)
 
@@ -18,24 +18,24 @@ def renderRow (lead : List Char) : List (List Char × List Char) → List Char
   | [] => lead
   | (cell, sep) :: rest => lead ++ cell ++ renderRow sep rest
 
-def Blank (s : List Char) : Prop := ∀ c ∈ s, isWs c = true
-def Solid (s : List Char) : Prop := s ≠ [] ∧ ∀ c ∈ s, isWs c = false
+def Blank (s : List Char) : Prop := ∀ c ∈ s, isBlankCh c = true
+def Solid (s : List Char) : Prop := s ≠ [] ∧ ∀ c ∈ s, isBlankCh c = false
 
 theorem aux_blank (b : List Char) (hb : Blank b) (rest : List Char) :
     splitWsAux (b ++ rest) [] = splitWsAux rest [] := by
   induction b with
   | nil => rfl
   | cons c cs ih =>
-    have hc : isWs c = true := hb c (List.mem_cons_self)
+    have hc : isBlankCh c = true := hb c (List.mem_cons_self)
     simp only [List.cons_append, splitWsAux, hc, if_true, List.isEmpty_nil]
     exact ih (fun d hd => hb d (List.mem_cons_of_mem _ hd))
 
-theorem aux_solid (s : List Char) (hs : ∀ c ∈ s, isWs c = false) (rest acc : List Char) :
+theorem aux_solid (s : List Char) (hs : ∀ c ∈ s, isBlankCh c = false) (rest acc : List Char) :
     splitWsAux (s ++ rest) acc = splitWsAux rest (s.reverse ++ acc) := by
   induction s generalizing acc with
   | nil => rfl
   | cons c cs ih =>
-    have hc : isWs c = false := hs c (List.mem_cons_self)
+    have hc : isBlankCh c = false := hs c (List.mem_cons_self)
     simp only [List.cons_append, splitWsAux, hc, Bool.false_eq_true, if_false]
     rw [ih (fun d hd => hs d (List.mem_cons_of_mem _ hd))]
     simp
@@ -69,7 +69,7 @@ theorem row_round_trip (lead : List Char) (hl : Blank lead) (cells : List (List 
           | cons a as => simp
         simp [this]
       | cons c cs _ =>
-        have hcw : isWs c = true := hsepB c (List.mem_cons_self)
+        have hcw : isBlankCh c = true := hsepB c (List.mem_cons_self)
         have : cell.reverse.isEmpty = false := by
           cases cell with
           | nil => exact absurd rfl hcell.1
@@ -86,7 +86,7 @@ theorem row_round_trip (lead : List Char) (hl : Blank lead) (cells : List (List 
       cases sep with
       | nil => exact absurd rfl hne
       | cons c cs =>
-        have hcw : isWs c = true := hsepB c (List.mem_cons_self)
+        have hcw : isBlankCh c = true := hsepB c (List.mem_cons_self)
         have hne' : cell.reverse.isEmpty = false := by
           cases cell with
           | nil => exact absurd rfl hcell.1
